@@ -15,7 +15,7 @@ from . import ops
 from .ty import INT, BOOL, CHAR, NONE, SLICE, TStr, TList, TTuple, TOpt, TRec, TRef, TSet, TDict, TEnum, Ty
 from .dsl import CONTRACTS, SPECS, LEMMAS, Spec, Lemma, Contract
 from .dsl import implies as _implies, iff as _iff
-from .engine import (V, K, PyObj, STuple, BoundMethod, Unsupported, Stale, State, Obligation, Normalizer,
+from .engine import (SDict, V, K, PyObj, STuple, BoundMethod, Unsupported, Stale, State, Obligation, Normalizer,
                      PURE_BUILTINS, PURE_METHODS, MUTATING_METHODS, none_v, mk_int, mk_bool, fresh, seq_arr,
                      seq_len, mk_seq, str_const, is_str, load_function, key_of, unwrap_callable, _is_logger_call)
 from .ops import (coerce, to_v, truthy, is_none, val_eq, tuple_get, rec_get, rec_make, forall, exists, infer_ty,
@@ -117,6 +117,7 @@ class Executor:
         self.rec_decls = REC_DECLS
         self.loop_ord: dict = {}
         self.cur_line = 0
+        self.owner_stack = []
         self.depth = 0
         self.paths_finished = 0
 
@@ -198,8 +199,8 @@ class Executor:
 
     def e_List(self, st, e):
         items = [self.eval(st, x) for x in e.elts]
-        if not items:
-            return STuple([])  # typed on use (coerce to the list type of the context)
+        if not items or all(isinstance(x, K) for x in items):
+            return STuple(items)  # typed on use (coerce to the list type of the context); constants unroll
         vs = self.unify([to_v(x) if not isinstance(x, K) else x for x in items])
         return list_literal(vs, TList(vs[0].ty))
 
@@ -259,6 +260,8 @@ class Executor:
         vals = []
         guard = None
         for x in e.values:
+            if guard is not None and z3.is_false(z3.simplify(guard)):
+                break      # statically short-circuited: the remaining operands are never evaluated
             v = self.eval_guarded(st, x, guard)
             vals.append(v)
             t = truthy(v)
@@ -417,6 +420,11 @@ class Executor:
         raise Unsupported("comparison")
 
     def contains(self, st, cont, item):
+        sd = ops.sdict_of(cont)
+        if sd is not None:
+            if isinstance(item, K):
+                return z3.BoolVal(item.v in sd.items)
+            raise Unsupported("`in` on structural dict with non-constant key")
         if isinstance(cont, STuple):
             return z3.Or(*[val_eq(item, x) for x in cont.items]) if cont.items else z3.BoolVal(False)
         if isinstance(cont, K):
@@ -468,6 +476,14 @@ class Executor:
         return self.subscript(st, base, idx)
 
     def subscript(self, st, base, idx):
+        sd = ops.sdict_of(base)
+        if sd is not None:
+            if not (isinstance(idx, K) and isinstance(idx.v, str)):
+                raise Unsupported("structural dict indexed by a non-constant key")
+            if idx.v not in sd.items:
+                self.emit(st, "bounds", "dict-key", z3.BoolVal(False), note=f"KeyError {idx.v!r}")
+                raise Unsupported(f"KeyError {idx.v!r} on this path")
+            return sd.items[idx.v]
         if isinstance(base, V) and isinstance(base.ty, TOpt):
             self.emit(st, "nonnull", "subscript", z3.Not(is_none(base)))
             base = unwrap_opt(base)
@@ -506,6 +522,21 @@ class Executor:
         return self.getattr(st, base, e.attr)
 
     def getattr(self, st, base, attr):
+        if isinstance(base, PyObj) and base.o == ("anyobj",):
+            return fresh(T.Text, "anyattr")
+        if isinstance(base, PyObj) and base.o == ("super",):
+            owner = self.owner_stack[-1] if self.owner_stack else None
+            if owner is None:
+                raise Unsupported("super() outside a method")
+            mro = inspect.getmro(owner)
+            for c in mro[1:]:
+                if attr in c.__dict__:
+                    o = c.__dict__[attr]
+                    if inspect.isfunction(o):
+                        selfv = st.env.get("self")
+                        return PyObj(("superbound", o, selfv, c))
+                    return PyObj(("noop",))     # builtin base class (e.g. ValueError.__init__): no tracked effect
+            raise Unsupported(f"super().{attr} not found")
         if isinstance(base, PyObj):
             try:
                 o = inspect.getattr_static(base.o, attr) if inspect.isclass(base.o) else getattr(base.o, attr)
@@ -518,7 +549,7 @@ class Executor:
             if isinstance(base.v, str):
                 return BoundMethod(base, attr)
             raise Unsupported(f"attribute {attr} on constant")
-        if isinstance(base, STuple):
+        if isinstance(base, (STuple, SDict)):
             return BoundMethod(base, attr)
         t = base.ty
         if isinstance(t, TOpt):
@@ -587,10 +618,16 @@ class Executor:
     def e_Dict(self, st, e):
         items = {}
         for k, v in zip(e.keys, e.values):
+            if k is None:      # {**other}
+                other = ops.sdict_of(self.eval(st, v))
+                if other is None:
+                    raise Unsupported("** of a non-structural dict")
+                items.update(other.items)
+                continue
             if not (isinstance(k, ast.Constant) and isinstance(k.value, str)):
                 raise Unsupported("dict literal with non-constant keys")
             items[k.value] = self.eval(st, v)
-        return PyObj(("dictlit", items))
+        return SDict(items)
 
     def e_Set(self, st, e):
         return PyObj(("setlit", [self.eval(st, x) for x in e.elts]))
@@ -654,10 +691,15 @@ class Executor:
         self.bind_target(st2, g.target, V(src.ty.elem, z3.Select(seq_arr(src), i)))
         if g.ifs:
             return self.filter_comp(st, st2, e, g, src, i)
+        rng = z3.And(0 <= i, i < seq_len(src))
+        st2.assume(rng)       # obligations emitted while evaluating the element see the index range
+        n0 = len(st2.pc)
         elt = to_v(self.eval(st2, e.elt))
-        extra = st2.pc[len(st.pc):]
-        if extra:
-            raise Unsupported("comprehension element with side assumptions")
+        for z in st2.pc[n0:]:
+            if mentions(z, [i]):
+                st.assume(forall([i], z3.Implies(rng, z)))
+            else:
+                st.assume(z)
         r = fresh_seq(TList(elt.ty), st, "comp")
         st.assume(seq_len(r) == seq_len(src))
         st.assume(forall([i], z3.Implies(z3.And(0 <= i, i < seq_len(src)), z3.Select(seq_arr(r), i) == elt.z)))
@@ -689,14 +731,27 @@ class Executor:
         if _is_logger_call(e):
             return K(None)
         f = self.eval(st, e.func)
-        if any(isinstance(a, ast.Starred) for a in e.args) or any(k.arg is None for k in e.keywords):
+        if any(isinstance(a, ast.Starred) for a in e.args):
             raise Unsupported("star-args in call")
         # quantifier builtins take a generator: evaluate lazily
         if isinstance(f, PyObj) and f.o in (all, any, sum) and len(e.args) == 1 and isinstance(e.args[0], (ast.GeneratorExp, ast.ListComp)):
             return self.quantified(st, f.o, e.args[0])
         args = [self.eval(st, a) for a in e.args]
-        kwargs = {k.arg: self.eval(st, k.value) for k in e.keywords}
+        kwargs = self.eval_kwargs(st, e.keywords)
         return self.apply(st, f, args, kwargs, e, stmt_level=False)
+
+    def eval_kwargs(self, st, keywords):
+        kwargs = {}
+        for k in keywords:
+            val = self.eval(st, k.value)
+            if k.arg is None:
+                sd = ops.sdict_of(val)
+                if sd is None:
+                    raise Unsupported("** of a non-structural dict in call")
+                kwargs.update(sd.items)
+            else:
+                kwargs[k.arg] = val
+        return kwargs
 
     def quantified(self, st, which, g):
         gens = g.generators
@@ -760,11 +815,14 @@ class Executor:
                 guards.append(truthy(self.eval(st2, c)))
         if which is sum:
             raise Unsupported("sum(...) -- use a spec function")
-        body = truthy(self.eval(st2, g.elt))
+        st2b = st2.fork()
+        st2b.assume(z3.And(*guards))   # obligations emitted inside the body see the range guards
+        nb = len(st2b.pc)
+        body = truthy(self.eval(st2b, g.elt))
         # facts introduced while evaluating the body (contract ensures of pure calls, definitions of fresh
         # slices...) may mention the bound variables: they are kept *inside* the quantifier
         extras = []
-        for z in st2.pc[len(st.pc):]:
+        for z in st2.pc[len(st.pc):] + st2b.pc[nb:]:
             if mentions(z, qvars):
                 extras.append(z)
             else:
@@ -789,6 +847,10 @@ class Executor:
         if isinstance(o, Contract):
             r = self.call_contract(st, o, args, kwargs, stmt_level, node)
             return r
+        if isinstance(o, tuple) and o and o[0] == "noop":
+            return self.wrap(st, K(None), stmt_level)
+        if isinstance(o, tuple) and o and o[0] == "superbound":
+            return self.call_function(st, o[1], [o[2]] + args, kwargs, stmt_level=stmt_level, node=node, owner=o[3])
         if isinstance(o, tuple) and o and o[0] == "lambda":
             _, lam, env = o
             st2 = st.fork()
@@ -890,6 +952,20 @@ class Executor:
             return r
         if o is repr:
             return fresh(T.Text, "repr")
+        if o is super and not args:
+            return PyObj(("super",))
+        if o is hasattr and isinstance(args[1], K):
+            a = args[0]
+            if isinstance(a, V) and isinstance(a.ty, TRef):
+                if has_field(a.ty.cls, args[1].v):
+                    return mk_bool(True)
+                return fresh(BOOL, "hasattr")   # depends on the dynamic class: unknown
+            raise Unsupported("hasattr on this value")
+        if o is getattr and len(args) == 2 and isinstance(args[1], K):
+            a = args[0]
+            if isinstance(a, V) and isinstance(a.ty, TRef) and not has_field(a.ty.cls, args[1].v):
+                return PyObj(("anyobj",))      # attribute of a subclass we know nothing about
+            return self.getattr(st, a, args[1].v)
         if o is set and not args:
             return PyObj(("emptyset",))
         if o is dict and not args and not kwargs:
@@ -1042,7 +1118,32 @@ class Executor:
                 st.assume(z)
             return val
         n0 = len(st.pc)
-        val = self.eval_fn_body(st, fn, node, env)
+        if getattr(sp, "opaque", False) and all(isinstance(v, V) for v in env.values()):
+            # opaque predicate: an atom p(args) + ONE global, triggered definition  forall x. p(x) == body(x)
+            fk = "opaque:" + sp.name + ":" + ",".join(str(v.ty) for v in env.values())
+            if fk not in REC_DECLS:
+                formals = {p: fresh(v.ty, "op_" + p) for p, v in env.items()}
+                sub = State()
+                sub.ghost = dict(st.ghost)
+                saved = ops.MODE["bounded"]
+                ops.MODE["bounded"] = None
+                try:
+                    bval = self.eval_fn_body(sub, fn, node, formals)
+                finally:
+                    ops.MODE["bounded"] = saved
+                bv = to_v(bval) if not isinstance(bval, V) else bval
+                decl = z3.Function("p_" + sp.name, *[v.ty.sort() for v in env.values()], bv.ty.sort())
+                app = decl(*[f.z for f in formals.values()])
+                defs = [z3.ForAll([f.z for f in formals.values()], app == bv.z, patterns=[app])]
+                for z in sub.pc:
+                    defs.append(z3.ForAll([f.z for f in formals.values()], z, patterns=[app]) if mentions(z, [f.z for f in formals.values()]) else z)
+                REC_DECLS[fk] = (decl, bv.ty, defs)
+            decl, rty, defs = REC_DECLS[fk]
+            for d in defs:
+                st.assume(d)
+            val = V(rty, decl(*[v.z for v in env.values()]))
+        else:
+            val = self.eval_fn_body(st, fn, node, env)
         if mk is not None and all(isinstance(v, (V, K)) for v in env.values()):
             SPEC_MEMO[mk] = (val, list(st.pc[n0:]))
         return val
@@ -1178,6 +1279,14 @@ class Executor:
             base_node = target.value
             base = self.eval(st, base_node)
             idx = self.eval(st, target.slice)
+            sd = ops.sdict_of(base)
+            if sd is not None:
+                if not (isinstance(idx, K) and isinstance(idx.v, str)):
+                    raise Unsupported("structural dict store with non-constant key")
+                items = dict(sd.items)
+                items[idx.v] = val
+                self.assign_lvalue(st, base_node, SDict(items))
+                return
             if isinstance(base, V) and isinstance(base.ty, TList):
                 iz = ops.norm_index(coerce(idx, INT).z, seq_len(base))
                 self.emit(st, "bounds", "store-index", z3.And(0 <= iz, iz < seq_len(base)))
